@@ -29,13 +29,13 @@ private def showC : CInstr × Pos → String
       | .loadA _ => "loadA" | .copyAToB => "copyAToB" | .copyAToC => "copyAToC" | .copyAToD => "copyAToD"
       | .copyCToB => "copyCToB" | .copyDToA => "copyDToA" | .copyDToB => "copyDToB"
       | .bin _ => "bin" | .negateA => "negateA" | .notA => "notA" | .cast _ => "cast"
-      | .pushA => "pushA" | .popA => "popA" | .varPath x _ => s!"varPath{x}" | .copyVarPathToA => "copyVarPathToA"
+      | .pushA => "pushA" | .popA => "popA"  | .varPath x _ => s!"varPath{if x.shared then "G" else ""}{x.slot}" | .copyVarPathToA => "copyVarPathToA"
       | .popVarPath => "popVarPath" | .copyAToVarPath => "copyAToVarPath" | .label n => "label:" ++ n.replace " " "_"
       | .jump a => s!"jump{a}" | .jumpIfFalse a => s!"jumpIfFalse{a}" | .pushRegs => "pushRegs" | .popRegs => "popRegs"
       | .throwZeroStep => "throwZeroStep" | .halt => "halt" | .allocate _ => "allocate"
       | .printSetPrinter => "printSetPrinter" | .printSetFormat => "printSetFormat" | .printComma => "printComma"
       | .printSemicolon => "printSemicolon" | .printValue => "printValue" | .printEnd => "printEnd"
-      | .beginArgs => "beginArgs" | .pushByVal => "pushByVal" | .pushByRef => "pushByRef" | .pushStack => "pushStack"
+      | .beginArgs => "beginArgs" | .pushByVal => "pushByVal" | .pushByRef => "pushByRef" | .pushStack => "pushStack" | .pushStatic f => s!"pushStatic{f}" | .isDefined x => s!"isDefined{x}"
       | .popStack => "popStack" | .pushNamed n _ => "pushNamed:" ++ n | .pushRet a => s!"pushRet{a}" | .popRet => "popRet"
       | .builtInData => "builtInData" | .builtInRead => "builtInRead"
       | .enqueue i => s!"enqueue{i}" | .dequeue => "dequeue"
@@ -53,14 +53,15 @@ private def outcomeStr : RbModel.Proc.Ref.Outcome → String
 
 def handle (cmd : String) (args : List Sexp) : Option String :=
   match cmd, args with
-  | "proc.compare", [prog, .list [mainT, .list procTs], code] => do
+  | "proc.compare", [prog, .list [mainT, globT, .list procTs], code] => do
       let prog ← sprogram? prog
       let mainT ← slotTable? mainT
+      let globT ← slotTable? globT
       let procTs ← procTs.mapM slotTable?
       let real ← codeOfSexp code
       if !prog.wf || procTs.length != prog.procs.length then pure "(ill-formed)"
       else
-        match normalise mainT (scopesOf prog.procs procTs) real with
+        match normalise mainT globT (scopesOf prog.procs procTs) real with
         | none => pure "(not-core)"
         | some rc =>
           let mc := compile prog
